@@ -1,5 +1,7 @@
 """C03 - minimisation always terminates: no mutation cycles, no-ops, hanging
 mutators."""
+import os
+
 from .. import props
 from .. import reftok
 from .. import gen_cmd
@@ -97,6 +99,10 @@ class C03(props.Prop):
         risky = rng.random() < 0.7
         text = gen_input.gen_risky(rng) if risky else workload.gen_text(
             rng, small=True)
+        deep = rng.random() < 0.12 or os.environ.get('DST_C03_FOCUS') == 'deep'
+        if deep:
+            # complexity stress: deeply nested / very wide terms
+            text = gen_input.gen_deep(rng)
         spec = workload.base_spec(
             rng,
             jobs=(1, 1, 2, 3),
@@ -321,6 +327,14 @@ class C03(props.Prop):
             v.violate('too-many-steps', f'C03:too-many-steps:{strat}',
                       f'{len(rec.writes)} adopted steps for an input of '
                       f'{len(spec["input"])} characters (bound {bound})')
+        # reach of the step budget: largest number of jump/call events
+        # between two yield points, relative to the budget in force
+        ev = getattr(res, 'max_step_events', 0)
+        if ev > 0:
+            lim = spec.get('jump_budget', 0) + 30 * rec.max_tokens**2
+            v.extra['max_step_events_pct_of_budget'] = (
+                '>50' if ev * 2 > lim else '>20' if ev * 5 > lim else
+                '>5' if ev * 20 > lim else '<=5')
         v.probes['adopted_steps'] += len(rec.writes)
         v.probes['max_chain'] = max(v.probes.get('max_chain', 0),
                                     len(rec.writes))
